@@ -332,6 +332,8 @@ def run_shard(spec, tier, seed):
             J.vec("subtract inverts add (a+b)-b=a", cell, AB.subtract(Bv), A, unit, det)
             J.vec("operator + is add", cell, A + Bv, AB, unit, det)
             J.vec("numpy.add is add", cell, numpy.add(A, Bv), AB, unit, det)
+            J.vec("operator - is subtract [(a+b)-b]", cell, AB - Bv, AB.subtract(Bv), unit, det)
+            J.vec("numpy.subtract is subtract [(a+b)-b]", cell, numpy.subtract(AB, Bv), AB.subtract(Bv), unit, det)
             if not anytau:
                 J.vec("a-b=a+(-b)", cell, A.subtract(Bv), A.add(-Bv), unit, det)
                 J.vec("operator - is subtract", cell, A - Bv, A.subtract(Bv), unit, det)
@@ -346,6 +348,14 @@ def run_shard(spec, tier, seed):
             J.vec("operator k*v is scale", cell, n1 * A, A.scale(n1), ku, dk)
             J.vec("operator / is scale(1/k)", cell, A / n1, A.scale(mode.num(1 / k1)), ku / abs(k1) + unit, dk)
             J.vec("unary plus is identity", cell, +A, A, unit, det)
+            # scaling by exactly zero (0, 0.0, -0.0): the zero vector, in every storage, and neutral in a sum
+            zero = R.RV(*([0] * dim))
+            for zname, zf in (("0", 0), ("0.0", 0.0), ("-0.0", -0.0)):
+                zn = mode.num(zf) if not isinstance(zf, int) or mode.mp else zf
+                J.vec(f"scale({zname}) is the zero vector", cell, A.scale(zn), zero, unit, det)
+                J.vec(f"v*{zname} is the zero vector", cell, A * zn, zero, unit, det)
+                J.vec(f"{zname}*v is the zero vector", cell, zn * A, zero, unit, det)
+            J.vec("b + 0*a = b", cell, Bv.add(A.scale(mode.num(0.0))), Bv, unit, det)
             Sa = A.scale(n1)
             J.exact("scale keeps class", cell, type(Sa) is type(A), {"got": type(Sa).__name__})
             # dot
